@@ -120,7 +120,8 @@ const BUZ_SEED: u32 = 0x1032_4195;
 
 pub fn buz_table() -> Vec<u32> {
     // the table is data, read from the source file at run time so that the oracle follows the tree
-    let src = std::fs::read_to_string("/repo/bitar/src/rolling_hash/buzhash.rs").unwrap();
+    let repo = std::env::var("VERIF_REPO").unwrap_or_else(|_| "/repo".to_string());
+    let src = std::fs::read_to_string(format!("{}/bitar/src/rolling_hash/buzhash.rs", repo)).unwrap();
     let start = src.find("static BUZHASH_TABLE").unwrap();
     let end = src[start..].find("];").unwrap() + start;
     let body = &src[start..end];
